@@ -4,9 +4,15 @@
 //! on the *calling thread* with [install]. Threads that never install one see
 //! exactly the shipped behaviour. Nothing in this module is used when the
 //! feature is off.
+//!
+//! [RwLock] is a thin wrapper around [std::sync::RwLock] that reports every lock
+//! phase (about to acquire / acquired / released) to the installed hooks. The
+//! files that own a lock select it instead of the std type when the feature is on.
 
 use std::cell::RefCell;
-use std::sync::Arc;
+use std::ops::{Deref, DerefMut};
+use std::panic::Location;
+use std::sync::{Arc, LockResult, PoisonError, TryLockError, TryLockResult};
 
 /// Kind of access requested on a reader-writer lock.
 #[derive(Clone, Copy, Debug, PartialEq, Eq, Hash)]
@@ -17,36 +23,32 @@ pub enum LockKind {
     Write,
 }
 
+/// Where and on which lock a synchronization event happened.
+#[derive(Clone, Copy, Debug, PartialEq, Eq, Hash)]
+pub struct LockSite {
+    /// Address of the lock object.
+    pub lock: usize,
+    /// Requested / held access.
+    pub kind: LockKind,
+    /// Source file of the call site.
+    pub file: &'static str,
+    /// Source line of the call site.
+    pub line: u32,
+}
+
 /// A synchronization-relevant event reported to the installed scheduler.
 #[derive(Clone, Copy, Debug, PartialEq, Eq, Hash)]
 pub enum SchedEvent {
-    /// The thread is about to acquire `lock` (it does not hold it yet).
-    Enter {
-        /// Address of the lock object.
-        lock: usize,
-        /// Requested access.
-        kind: LockKind,
-        /// Static name of the call site.
-        site: &'static str,
-    },
-    /// The thread has just acquired `lock`.
-    Acquired {
-        /// Address of the lock object.
-        lock: usize,
-        /// Granted access.
-        kind: LockKind,
-        /// Static name of the call site.
-        site: &'static str,
-    },
-    /// The thread has just released `lock`.
-    Released {
-        /// Address of the lock object.
-        lock: usize,
-        /// Access that was held.
-        kind: LockKind,
-        /// Static name of the call site.
-        site: &'static str,
-    },
+    /// The thread is about to block on acquiring the lock (it does not hold it yet).
+    Enter(LockSite),
+    /// The thread has just acquired the lock after an `Enter`.
+    Acquired(LockSite),
+    /// The thread is about to make a non-blocking acquisition attempt.
+    TryEnter(LockSite),
+    /// A non-blocking attempt succeeded (the thread now holds the lock) or failed.
+    TryResult(LockSite, bool),
+    /// The thread has just released the lock.
+    Released(LockSite),
 }
 
 /// Callbacks a simulator installs on its simulated threads.
@@ -78,38 +80,189 @@ pub(crate) fn entropy() -> Option<[u8; 64]> {
     current().and_then(|h| h.entropy())
 }
 
-/// RAII marker for one lock phase. Declared *before* the real guard so that it
-/// is dropped *after* it; reports `Released` when dropped.
-pub(crate) struct LockScope {
+/// Reports `Released` when dropped. Stored in the guards *after* the real guard, so the
+/// real lock is released first.
+struct Scope {
     hooks: Option<Arc<dyn Hooks>>,
-    lock: usize,
-    kind: LockKind,
-    site: &'static str,
+    site: LockSite,
 }
 
-/// Report that the calling thread is about to acquire `lock`.
-pub(crate) fn lock_enter<T>(lock: &T, kind: LockKind, site: &'static str) -> LockScope {
-    let hooks = current();
-    let lock = lock as *const T as usize;
-    if let Some(h) = &hooks {
-        h.sched(SchedEvent::Enter { lock, kind, site });
-    }
-    LockScope { hooks, lock, kind, site }
-}
-
-impl LockScope {
-    /// Report that the lock has been acquired.
-    pub(crate) fn acquired(&self) {
-        if let Some(h) = &self.hooks {
-            h.sched(SchedEvent::Acquired { lock: self.lock, kind: self.kind, site: self.site });
-        }
-    }
-}
-
-impl Drop for LockScope {
+impl Drop for Scope {
     fn drop(&mut self) {
         if let Some(h) = &self.hooks {
-            h.sched(SchedEvent::Released { lock: self.lock, kind: self.kind, site: self.site });
+            h.sched(SchedEvent::Released(self.site));
         }
+    }
+}
+
+/// Reader-writer lock with the interface subset of [std::sync::RwLock] used by this crate.
+pub struct RwLock<T> {
+    inner: std::sync::RwLock<T>,
+}
+
+/// Shared guard of [RwLock].
+pub struct RwLockReadGuard<'a, T> {
+    guard: std::sync::RwLockReadGuard<'a, T>,
+    _scope: Scope,
+}
+
+/// Exclusive guard of [RwLock].
+pub struct RwLockWriteGuard<'a, T> {
+    guard: std::sync::RwLockWriteGuard<'a, T>,
+    _scope: Scope,
+}
+
+impl<T> Deref for RwLockReadGuard<'_, T> {
+    type Target = T;
+    fn deref(&self) -> &T {
+        &self.guard
+    }
+}
+
+impl<T> Deref for RwLockWriteGuard<'_, T> {
+    type Target = T;
+    fn deref(&self) -> &T {
+        &self.guard
+    }
+}
+
+impl<T> DerefMut for RwLockWriteGuard<'_, T> {
+    fn deref_mut(&mut self) -> &mut T {
+        &mut self.guard
+    }
+}
+
+impl<T> RwLock<T> {
+    /// See [std::sync::RwLock::new].
+    pub fn new(value: T) -> Self {
+        RwLock { inner: std::sync::RwLock::new(value) }
+    }
+
+    fn site(&self, kind: LockKind, loc: &'static Location<'static>) -> LockSite {
+        LockSite { lock: &self.inner as *const _ as usize, kind, file: loc.file(), line: loc.line() }
+    }
+
+    /// See [std::sync::RwLock::read].
+    #[track_caller]
+    pub fn read(&self) -> LockResult<RwLockReadGuard<'_, T>> {
+        let hooks = current();
+        let site = self.site(LockKind::Read, Location::caller());
+        if let Some(h) = &hooks {
+            h.sched(SchedEvent::Enter(site));
+        }
+        let result = self.inner.read();
+        let scope = Scope { hooks, site };
+        if let Some(h) = &scope.hooks {
+            h.sched(SchedEvent::Acquired(site));
+        }
+        match result {
+            Ok(guard) => Ok(RwLockReadGuard { guard, _scope: scope }),
+            Err(p) => Err(PoisonError::new(RwLockReadGuard { guard: p.into_inner(), _scope: scope })),
+        }
+    }
+
+    /// See [std::sync::RwLock::write].
+    #[track_caller]
+    pub fn write(&self) -> LockResult<RwLockWriteGuard<'_, T>> {
+        let hooks = current();
+        let site = self.site(LockKind::Write, Location::caller());
+        if let Some(h) = &hooks {
+            h.sched(SchedEvent::Enter(site));
+        }
+        let result = self.inner.write();
+        let scope = Scope { hooks, site };
+        if let Some(h) = &scope.hooks {
+            h.sched(SchedEvent::Acquired(site));
+        }
+        match result {
+            Ok(guard) => Ok(RwLockWriteGuard { guard, _scope: scope }),
+            Err(p) => Err(PoisonError::new(RwLockWriteGuard { guard: p.into_inner(), _scope: scope })),
+        }
+    }
+
+    /// See [std::sync::RwLock::try_read].
+    #[track_caller]
+    pub fn try_read(&self) -> TryLockResult<RwLockReadGuard<'_, T>> {
+        let hooks = current();
+        let site = self.site(LockKind::Read, Location::caller());
+        if let Some(h) = &hooks {
+            h.sched(SchedEvent::TryEnter(site));
+        }
+        let result = self.inner.try_read();
+        let got = !matches!(result, Err(TryLockError::WouldBlock));
+        if let Some(h) = &hooks {
+            h.sched(SchedEvent::TryResult(site, got));
+        }
+        match result {
+            Ok(guard) => Ok(RwLockReadGuard { guard, _scope: Scope { hooks, site } }),
+            Err(TryLockError::Poisoned(p)) => Err(TryLockError::Poisoned(PoisonError::new(RwLockReadGuard {
+                guard: p.into_inner(),
+                _scope: Scope { hooks, site },
+            }))),
+            Err(TryLockError::WouldBlock) => Err(TryLockError::WouldBlock),
+        }
+    }
+
+    /// See [std::sync::RwLock::try_write].
+    #[track_caller]
+    pub fn try_write(&self) -> TryLockResult<RwLockWriteGuard<'_, T>> {
+        let hooks = current();
+        let site = self.site(LockKind::Write, Location::caller());
+        if let Some(h) = &hooks {
+            h.sched(SchedEvent::TryEnter(site));
+        }
+        let result = self.inner.try_write();
+        let got = !matches!(result, Err(TryLockError::WouldBlock));
+        if let Some(h) = &hooks {
+            h.sched(SchedEvent::TryResult(site, got));
+        }
+        match result {
+            Ok(guard) => Ok(RwLockWriteGuard { guard, _scope: Scope { hooks, site } }),
+            Err(TryLockError::Poisoned(p)) => Err(TryLockError::Poisoned(PoisonError::new(RwLockWriteGuard {
+                guard: p.into_inner(),
+                _scope: Scope { hooks, site },
+            }))),
+            Err(TryLockError::WouldBlock) => Err(TryLockError::WouldBlock),
+        }
+    }
+
+    /// See [std::sync::RwLock::get_mut].
+    pub fn get_mut(&mut self) -> LockResult<&mut T> {
+        self.inner.get_mut()
+    }
+
+    /// See [std::sync::RwLock::into_inner].
+    pub fn into_inner(self) -> LockResult<T> {
+        self.inner.into_inner()
+    }
+
+    /// See [std::sync::RwLock::is_poisoned].
+    pub fn is_poisoned(&self) -> bool {
+        self.inner.is_poisoned()
+    }
+
+    /// Copy of the protected value taken without reporting to the hooks, or `None` while a
+    /// writer holds the lock. For invariant probes only.
+    pub fn verif_peek(&self) -> Option<T>
+    where
+        T: Clone,
+    {
+        match self.inner.try_read() {
+            Ok(g) => Some(g.clone()),
+            Err(TryLockError::Poisoned(p)) => Some(p.into_inner().clone()),
+            Err(TryLockError::WouldBlock) => None,
+        }
+    }
+}
+
+impl<T: Default> Default for RwLock<T> {
+    fn default() -> Self {
+        RwLock::new(T::default())
+    }
+}
+
+impl<T: std::fmt::Debug> std::fmt::Debug for RwLock<T> {
+    fn fmt(&self, f: &mut std::fmt::Formatter<'_>) -> std::fmt::Result {
+        self.inner.fmt(f)
     }
 }
